@@ -28,8 +28,8 @@ def cases(tier, seed):
                 w = [4, 2, 8, 3, 16, 1, 6, 12][(pi + rep + seed) % 8]
                 n += 1
                 out.append(Case("plain", "c04_rwmutex",
-                                ["--scheduler=" + pol, "--threads=%d" % w, "--type=" + typ, "--sequences=%d" % (600 if not big else 3000),
-                                 "--maxlen=%d" % (60 if not big else 200), "--perturb=" + rnd.choice(["light", "none"]),
+                                ["--scheduler=" + pol, "--threads=%d" % w, "--type=" + typ, "--sequences=%d" % (600 if not big else 1200),
+                                 "--maxlen=%d" % (60 if not big else 120), "--perturb=" + rnd.choice(["light", "none"]),
                                  "--seed=%d" % (seed * 1000 + n)], cls="%s:%s" % (typ, pol), slots=w + 3, timeout=600))
     # release of the last wrapper racing with the start of the following access(es), two aligned OS threads, swept skew
     for k in range(3 if not big else 12):
